@@ -1,7 +1,7 @@
 (* Repeating the samples changes nothing, for nested data: tracing a collection twice over succeeds whenever tracing it once
    does, and gives the same tracer up to the order of record fields and counters.  Needs the converse direction of the projection
    theorems: a record / sequence position traces successfully as soon as each of its children does. *)
-From Verif Require Import Tracer Coerce Coerce_proofs Builder_proofs Null_proofs Struct_proofs Project_proofs FlatRecords_proofs Nested_order.
+From Verif Require Import Tracer Coerce Coerce_proofs Builder_proofs Null_proofs Struct_proofs Project_proofs FlatRecords_proofs Shapes_proofs Nested_order.
 From Coq Require Import Permutation.
 Require Import Lia.
 Local Open Scope nat_scope.
@@ -112,6 +112,144 @@ Section RecordComplete.
   Qed.
 End RecordComplete.
 
+(* ---- maps traced as maps ---- *)
+Lemma maps_complete_from o d : o_map_as_struct o = false -> Nat.leb max_depth d = false -> forall kvss n kt vt kt' vt',
+  trace_seq' o (S d) (mkeys kvss) (Ok kt) = Ok kt' -> trace_seq' o (S d) (mvals kvss) (Ok vt) = Ok vt' ->
+  trace_seq' o d (map VMap kvss) (Ok (TMap n kt vt)) = Ok (TMap n kt' vt').
+Proof.
+  intros Hm Hd. induction kvss as [|kvs r IH]; intros n kt vt kt' vt' Hk Hv; [cbn in Hk, Hv |- *; congruence|].
+  unfold mkeys, mvals in Hk, Hv. cbn [flat_map] in Hk, Hv. fold (mkeys r) in Hk. fold (mvals r) in Hv.
+  destruct (fold_prefix o (S d) _ _ _ _ Hk) as (k1 & Ek). destruct (fold_prefix o (S d) _ _ _ _ Hv) as (v1 & Ev).
+  rewrite fold_app, Ek in Hk. rewrite fold_app, Ev in Hv.
+  cbn [map]. rewrite ts_cons, (trace_map_eq o d kvs _ Hm). unfold ensure_map. rewrite Hd. cbn [upgradable bind].
+  rewrite (mgo_join o d kvs kt vt k1 v1 Ek Ev). cbn [bind fst snd]. apply (IH n k1 v1 kt' vt' Hk Hv).
+Qed.
+
+Lemma maps_complete o d kvss kt vt : o_map_as_struct o = false -> Nat.leb max_depth d = false -> kvss <> [] ->
+  trace_seq' o (S d) (mkeys kvss) (Ok (TUnknown false)) = Ok kt -> trace_seq' o (S d) (mvals kvss) (Ok (TUnknown false)) = Ok vt ->
+  trace_seq' o d (map VMap kvss) (Ok (TUnknown false)) = Ok (TMap false kt vt).
+Proof.
+  intros Hm Hd Hne Hk Hv. destruct kvss as [|kvs r]; [congruence|].
+  assert (E : trace o d (VMap kvs) (TUnknown false) = trace o d (VMap kvs) (TMap false (TUnknown false) (TUnknown false))).
+  { rewrite !(trace_map_eq o d kvs _ Hm). unfold ensure_map. rewrite Hd. reflexivity. }
+  cbn [map]. rewrite ts_cons, E, <- ts_cons. apply (maps_complete_from o d Hm Hd (kvs :: r) false _ _ kt vt Hk Hv).
+Qed.
+
+Lemma maps_depth_ok o d kvs r n0 t : o_map_as_struct o = false ->
+  trace_seq' o d (map VMap (kvs :: r)) (Ok (TUnknown n0)) = Ok t -> Nat.leb max_depth d = false.
+Proof.
+  intros Hm. cbn [map]. rewrite ts_cons, (trace_map_eq o d kvs _ Hm). unfold ensure_map. destruct (Nat.leb max_depth d); [|reflexivity]. cbn [bind]. rewrite fold_err. discriminate.
+Qed.
+
+(* ---- tuples ---- *)
+Definition TInvC o d (S0 : list (list Value)) (F : list Tracer) : Prop :=
+  forall i, trace_seq' o (S d) (col i S0) (Ok (TUnknown false)) = Ok (nth_tracer F i).
+
+Lemma tinvc_step o d S0 F l F' : TInvC o d S0 F -> tgo (trace o) d 0 l F = Ok F' -> TInvC o d (S0 ++ [l]) F'.
+Proof.
+  intros Hcol H. destruct (tgo_spec o d l 0 F F' H) as (_ & _ & Hhi & Hin).
+  intros i. rewrite col_app, fold_app, Hcol. unfold col at 1. cbn [flat_map]. rewrite app_nil_r.
+  destruct (nth_error l i) as [x|] eqn:E.
+  - cbn [trace_seq' fold_left bind]. apply (Hin i x E).
+  - cbn [trace_seq' fold_left]. rewrite Hhi; [reflexivity|]. apply nth_error_None in E. lia.
+Qed.
+
+Lemma tgo_progress o d : forall l pos acc,
+  (forall j x, nth_error l j = Some x -> exists t', trace o (S d) x (nth_tracer acc (pos + j)) = Ok t') ->
+  exists acc', tgo (trace o) d pos l acc = Ok acc'.
+Proof.
+  induction l as [|x r IH]; intros pos acc Hok; [eexists; reflexivity|]. cbn [tgo].
+  destruct (Hok 0 x eq_refl) as (t' & Ht). rewrite Nat.add_0_r in Ht. rewrite Ht. cbn [bind]. apply IH.
+  intros j y Hy. destruct (Hok (S j) y Hy) as (t2 & Ht2). exists t2. rewrite nth_set_tracer.
+  replace (S pos + j) with (pos + S j) by lia. destruct (Nat.eqb_spec (pos + S j) pos); [lia|exact Ht2].
+Qed.
+
+Lemma tuples_complete_from o d : Nat.leb max_depth d = false -> forall S1 S0 n F, TInvC o d S0 F ->
+  (forall i, exists T, trace_seq' o (S d) (col i (S0 ++ S1)) (Ok (TUnknown false)) = Ok T) ->
+  exists t, trace_seq' o d (map VTuple S1) (Ok (TTuple n F)) = Ok t.
+Proof.
+  intros Hd. induction S1 as [|l r IH]; intros S0 n F Hinv Hall; [eexists; reflexivity|].
+  assert (Hgo : exists F', tgo (trace o) d 0 l F = Ok F').
+  { apply tgo_progress. intros j x Hx. destruct (Hall j) as (T & HT). change (l :: r) with ([l] ++ r) in HT. rewrite app_assoc, col_app in HT.
+    destruct (fold_prefix _ _ _ _ _ _ HT) as (T1 & HT1). rewrite col_app, fold_app, (Hinv j) in HT1. unfold col in HT1. cbn [flat_map] in HT1. rewrite Hx in HT1.
+    cbn [app trace_seq' fold_left bind] in HT1. exists T1. exact HT1. }
+  destruct Hgo as (F' & Hgo). cbn [map]. rewrite ts_cons, trace_tuple_eq. unfold ensure_tuple. rewrite Hd. cbn [upgradable bind]. rewrite Hgo. cbn [bind].
+  apply (IH (S0 ++ [l]) n F' (tinvc_step o d S0 F l F' Hinv Hgo)). intros i. rewrite <- app_assoc. apply Hall.
+Qed.
+
+Lemma tuple_complete o d ls n0 : Nat.leb max_depth d = false ->
+  (forall i, exists T, trace_seq' o (S d) (col i ls) (Ok (TUnknown false)) = Ok T) ->
+  exists t, trace_seq' o d (map VTuple ls) (Ok (TUnknown n0)) = Ok t.
+Proof.
+  intros Hd Hall. destruct ls as [|l r]; [eexists; reflexivity|].
+  assert (E : trace o d (VTuple l) (TUnknown n0) = trace o d (VTuple l) (TTuple n0 (repeat (TUnknown false) (length l)))).
+  { rewrite !trace_tuple_eq. unfold ensure_tuple. rewrite Hd. reflexivity. }
+  cbn [map]. rewrite ts_cons, E, <- ts_cons. apply (tuples_complete_from o d Hd (l :: r) [] n0 _); [|exact Hall].
+  intros i. rewrite nth_tracer_repeat. reflexivity.
+Qed.
+
+Lemma tuple_depth_ok o d l r n0 t : trace_seq' o d (map VTuple (l :: r)) (Ok (TUnknown n0)) = Ok t -> Nat.leb max_depth d = false.
+Proof.
+  cbn [map]. rewrite ts_cons, trace_tuple_eq. unfold ensure_tuple. destruct (Nat.leb max_depth d); [|reflexivity]. cbn [bind]. rewrite fold_err. discriminate.
+Qed.
+
+(* ---- enum variants ---- *)
+Definition UAll o d (ws : list (Z * bytes * Value)) : Prop :=
+  forall i, exists nm T, Forall (fun e : bytes * Value => fst e = nm) (wsel i ws) /\
+                         trace_seq' o (S d + count_dots nm) (map snd (wsel i ws)) (Ok (TUnknown false)) = Ok T.
+
+Lemma ustep_progress o d S0 n V w : Nat.leb max_depth d = false -> UInv o d S0 V -> (0 <= fst (fst w))%Z -> UAll o d (S0 ++ [w]) ->
+  exists t, ustep o d w (TUnion n V) = Ok t.
+Proof.
+  intros Hd (Hpos & Hlen & Hsel) Hge Hall. destruct w as [[idx name] p]. cbn [fst] in Hge. unfold ustep, ensure_union. rewrite Hd. cbn [upgradable bind].
+  destruct (Z.ltb_spec idx 0) as [|_]; [lia|]. set (i := Z.to_nat idx).
+  destruct (Hall i) as (nm & T & Hnm & HT). rewrite wsel_app in Hnm, HT.
+  assert (Hsel_i : wsel i [(idx, name, p)] = [(name, p)]).
+  { unfold wsel. cbn [flat_map]. replace (Z.of_nat i) with idx by (unfold i; lia). rewrite Z.eqb_refl. reflexivity. }
+  rewrite Hsel_i in Hnm, HT. apply Forall_app in Hnm as [Hnm0 Hnm1]. pose proof (Forall_inv Hnm1) as En. cbn [fst] in En. subst nm.
+  rewrite map_app in HT. change (map snd [(name, p)]) with [p] in HT. rewrite fold_snoc in HT. specialize (Hsel i). destruct (get_variant V i) as [[prev vt]|].
+  - destruct Hsel as (Hne & Hprev & Htr). destruct (wsel i S0) as [|e r] eqn:Ee; [congruence|].
+    pose proof (Forall_inv Hprev) as P1. pose proof (Forall_inv Hnm0) as P2. cbn beta in P1, P2. assert (E0 : prev = name) by congruence. clear P1 P2. revert Htr. rewrite E0. intros Htr.
+    rewrite bytes_eqb_refl. rewrite Htr in HT. cbn [bind] in HT. rewrite HT. cbn [bind]. eexists; reflexivity.
+  - rewrite Hsel in HT. cbn [map trace_seq' fold_left bind] in HT. rewrite HT. cbn [bind]. eexists; reflexivity.
+Qed.
+
+Lemma uall_prefix o d a c : UAll o d (a ++ c) -> UAll o d a.
+Proof.
+  intros H i. destruct (H i) as (nm & T & Hnm & HT). rewrite wsel_app in Hnm, HT. apply Forall_app in Hnm as [Hnm _]. rewrite map_app in HT.
+  destruct (fold_prefix _ _ _ _ _ _ HT) as (T1 & HT1). exists nm, T1. split; assumption.
+Qed.
+
+Lemma unions_complete_from o d : Nat.leb max_depth d = false -> forall cs S0 n V, Forall (fun c => vpl c <> None) cs ->
+  Forall (fun w : Z * bytes * Value => (0 <= fst (fst w))%Z) (pls cs) -> UInv o d S0 V -> UAll o d (S0 ++ pls cs) ->
+  exists t, trace_seq' o d cs (Ok (TUnion n V)) = Ok t.
+Proof.
+  intros Hd. induction cs as [|c r IH]; intros S0 n V HF Hpos Hinv Hall; [eexists; reflexivity|].
+  pose proof (Forall_inv HF) as Hc. destruct (vpl c) as [w|] eqn:Ew; [|congruence].
+  unfold pls in Hpos, Hall. cbn [flat_map] in Hpos, Hall. fold (pls r) in Hpos, Hall. rewrite Ew in Hpos, Hall. cbn [app] in Hpos.
+  assert (Hall1 : UAll o d (S0 ++ [w])) by (apply (uall_prefix o d (S0 ++ [w]) (pls r)); rewrite <- app_assoc; exact Hall).
+  destruct (ustep_progress o d S0 n V w Hd Hinv (Forall_inv Hpos) Hall1) as (t1 & E).
+  destruct (uinv_step o d S0 n V w t1 Hinv E) as (V1 & -> & Hinv1).
+  rewrite ts_cons, (trace_variant_eq o d c w _ Ew), E. apply (IH (S0 ++ [w]) n V1 (Forall_inv_tail HF) (Forall_inv_tail Hpos) Hinv1).
+  rewrite <- app_assoc. exact Hall.
+Qed.
+
+Lemma union_complete o d cs n0 : Nat.leb max_depth d = false -> Forall (fun c => vpl c <> None) cs ->
+  Forall (fun w : Z * bytes * Value => (0 <= fst (fst w))%Z) (pls cs) -> UAll o d (pls cs) ->
+  exists t, trace_seq' o d cs (Ok (TUnknown n0)) = Ok t.
+Proof.
+  intros Hd HF Hpos Hall. destruct cs as [|c r]; [eexists; reflexivity|]. pose proof (Forall_inv HF) as Hc. destruct (vpl c) as [w|] eqn:Ew; [|congruence].
+  assert (E : trace o d c (TUnknown n0) = trace o d c (TUnion n0 [])).
+  { rewrite !(trace_variant_eq o d c w _ Ew). destruct w as [[idx name] p]. unfold ustep, ensure_union. rewrite Hd. reflexivity. }
+  rewrite ts_cons, E, <- ts_cons. apply (unions_complete_from o d Hd (c :: r) [] n0 [] HF Hpos (uinv_nil o d) Hall).
+Qed.
+
+Lemma union_depth_ok o d c r n0 t : vpl c <> None -> trace_seq' o d (c :: r) (Ok (TUnknown n0)) = Ok t -> Nat.leb max_depth d = false.
+Proof.
+  intros Hc. destruct (vpl c) as [w|] eqn:Ew; [|congruence]. rewrite ts_cons, (trace_variant_eq o d c w _ Ew). destruct w as [[idx name] p].
+  unfold ustep, ensure_union. destruct (Nat.leb max_depth d); [|reflexivity]. cbn [bind]. rewrite fold_err. discriminate.
+Qed.
+
 Section Repeat.
   Variable o : Opts.
 
@@ -131,7 +269,7 @@ Section Repeat.
     induction n as [|n IH]; intros d vs t Hh H1.
     - destruct Hh as [(l & Hl)|[]]. exists t. split; [|apply (leaf_result_teq o d vs l t Hl H1)].
       rewrite trace_seq_same in *. apply (leaf_repeat o d vs l t Hl H1).
-    - destruct Hh as [(l & Hl)|[(ls & Hc & Hh)|[(SS & Hc & Hnd & Hh)|(Hm & SS & Hc & Hnd & Hh)]]].
+    - destruct Hh as [(l & Hl)|[(ls & Hc & Hh)|[(SS & Hc & Hnd & Hh)|[(Hm & SS & Hc & Hnd & Hh)|[(Hm & kvss & Hc & Hhk & Hhv)|[(ls & Hc & Hh)|(HF & Hh)]]]]]].
       + exists t. split; [|apply (leaf_result_teq o d vs l t Hl H1)]. rewrite trace_seq_same in *. apply (leaf_repeat o d vs l t Hl H1).
       + (* sequences *)
         destruct ls as [|l0 r0].
@@ -202,5 +340,89 @@ Section Repeat.
         -- intros k t1 l1 t2 l2 G1 G2. specialize (P2 k). rewrite G2 in P2. destruct P2 as (_ & T2 & R2 & ->).
            destruct (Hall k) as (T & RT & Hrel). destruct (Hrel t1 l1 G1) as (T0 & -> & Hq). rewrite RT in R2. injection R2 as <-.
            rewrite missing_dup. apply teq_mk. exact Hq.
+      + (* maps traced as maps *)
+        destruct kvss as [|kv0 r0].
+        { destruct (cores_nil_atoms o vs Hc) as (l & Hl). exists t. split; [|apply (leaf_result_teq o d vs l t Hl H1)]. rewrite trace_seq_same in *. apply (leaf_repeat o d vs l t Hl H1). }
+        rewrite (strip0 o d vs) in H1 by (rewrite Hc; first [apply containers_map; reflexivity|discriminate]). rewrite Hc in H1.
+        destruct (omk_ok_inv _ _ _ H1) as (u & E1 & ->).
+        pose proof (maps_depth_ok o d kv0 r0 false u Hm E1) as Hd.
+        destruct (maps_projection o d (kv0 :: r0) false u Hm ltac:(discriminate) E1) as (kt & vt & -> & Hk & Hv).
+        destruct (IH (S d) _ kt Hhk Hk) as (kt2 & Hk2 & Hqk). destruct (IH (S d) _ vt Hhv Hv) as (vt2 & Hv2 & Hqv).
+        set (KS := kv0 :: r0) in *.
+        assert (Ek : mkeys (KS ++ KS) = mkeys KS ++ mkeys KS) by (apply flat_map_app).
+        assert (Ev : mvals (KS ++ KS) = mvals KS ++ mvals KS) by (apply flat_map_app).
+        rewrite <- Ek in Hk2. rewrite <- Ev in Hv2.
+        pose proof (maps_complete o d (KS ++ KS) kt2 vt2 Hm Hd ltac:(discriminate) Hk2 Hv2) as E2.
+        rewrite (strip0 o d (vs ++ vs)) by (rewrite cores_app, Hc, <- map_app; first [apply containers_map; reflexivity|discriminate]).
+        rewrite cores_app, Hc, <- map_app, nullish_dup, E2, omk_ok. eexists. split; [reflexivity|]. apply teq_mk. apply teq_map; assumption.
+      + (* tuples and tuple structs *)
+        destruct Hc as [Hc|Hc].
+        { destruct ls as [|l0 r0].
+          { destruct (cores_nil_atoms o vs Hc) as (l & Hl). exists t. split; [|apply (leaf_result_teq o d vs l t Hl H1)]. rewrite trace_seq_same in *. apply (leaf_repeat o d vs l t Hl H1). }
+          rewrite (strip0 o d vs) in H1 by (rewrite Hc; first [apply containers_map; reflexivity|discriminate]). rewrite Hc in H1.
+          destruct (omk_ok_inv _ _ _ H1) as (u & E1 & ->).
+          pose proof (tuple_depth_ok o d l0 r0 false u E1) as Hd.
+          destruct (tuple_projection o d (l0 :: r0) false u ltac:(discriminate) E1) as (F & -> & Hlen & Hcol).
+          set (LS := l0 :: r0) in *.
+          assert (Hall : forall i, exists T, trace_seq' o (S d) (col i (LS ++ LS)) (Ok (TUnknown false)) = Ok T /\ teq (nth_tracer F i) T).
+          { intros i. rewrite col_app. destruct (IH (S d) (col i LS) _ (Hh i) (Hcol i)) as (T2 & R2 & Hq). exists T2. split; assumption. }
+          destruct (tuple_complete o d (LS ++ LS) false Hd (fun i => let (T, HT) := Hall i in ex_intro _ T (proj1 HT))) as (u2 & E2).
+          rewrite (strip0 o d (vs ++ vs)) by (rewrite cores_app, Hc, <- map_app; first [apply containers_map; reflexivity|discriminate]).
+          rewrite cores_app, Hc, <- map_app, nullish_dup. rewrite E2, omk_ok. eexists. split; [reflexivity|]. apply teq_mk.
+          destruct (tuple_projection o d (LS ++ LS) false u2 ltac:(discriminate) E2) as (F2 & -> & Hlen2 & Hcol2).
+          apply teq_tuple; [rewrite Hlen, Hlen2, maxlen_app; lia|].
+          intros i. destruct (Hall i) as (T & RT & Hq). rewrite (Hcol2 i) in RT. injection RT as <-. exact Hq. }
+        { destruct ls as [|l0 r0].
+          { destruct (cores_nil_atoms o vs Hc) as (l & Hl). exists t. split; [|apply (leaf_result_teq o d vs l t Hl H1)]. rewrite trace_seq_same in *. apply (leaf_repeat o d vs l t Hl H1). }
+          rewrite (strip0 o d vs) in H1 by (rewrite Hc; first [apply containers_map; reflexivity|discriminate]). rewrite Hc in H1. rewrite tuple_structs in H1.
+          destruct (omk_ok_inv _ _ _ H1) as (u & E1 & ->).
+          pose proof (tuple_depth_ok o d l0 r0 false u E1) as Hd.
+          destruct (tuple_projection o d (l0 :: r0) false u ltac:(discriminate) E1) as (F & -> & Hlen & Hcol).
+          set (LS := l0 :: r0) in *.
+          assert (Hall : forall i, exists T, trace_seq' o (S d) (col i (LS ++ LS)) (Ok (TUnknown false)) = Ok T /\ teq (nth_tracer F i) T).
+          { intros i. rewrite col_app. destruct (IH (S d) (col i LS) _ (Hh i) (Hcol i)) as (T2 & R2 & Hq). exists T2. split; assumption. }
+          destruct (tuple_complete o d (LS ++ LS) false Hd (fun i => let (T, HT) := Hall i in ex_intro _ T (proj1 HT))) as (u2 & E2).
+          rewrite (strip0 o d (vs ++ vs)) by (rewrite cores_app, Hc, <- map_app; first [apply containers_map; reflexivity|discriminate]).
+          rewrite cores_app, Hc, <- map_app, nullish_dup. rewrite tuple_structs. rewrite E2, omk_ok. eexists. split; [reflexivity|]. apply teq_mk.
+          destruct (tuple_projection o d (LS ++ LS) false u2 ltac:(discriminate) E2) as (F2 & -> & Hlen2 & Hcol2).
+          apply teq_tuple; [rewrite Hlen, Hlen2, maxlen_app; lia|].
+          intros i. destruct (Hall i) as (T & RT & Hq). rewrite (Hcol2 i) in RT. injection RT as <-. exact Hq. }
+      + (* enum variants *)
+        destruct (cores vs) as [|c0 r0] eqn:Hc.
+        { destruct (cores_nil_atoms o vs Hc) as (l & Hl). exists t. split; [|apply (leaf_result_teq o d vs l t Hl H1)]. rewrite trace_seq_same in *. apply (leaf_repeat o d vs l t Hl H1). }
+        rewrite (strip0 o d vs) in H1 by (rewrite Hc; first [exact (variants_containers _ HF)|discriminate]). rewrite Hc in H1.
+        destruct (omk_ok_inv _ _ _ H1) as (u & E1 & ->).
+        pose proof (union_depth_ok o d c0 r0 false u (Forall_inv HF) E1) as Hd.
+        destruct (union_projection o d (c0 :: r0) false u ltac:(discriminate) HF E1) as (V & -> & (Hpos & Hlen & Hsel)).
+        set (CS := c0 :: r0) in *.
+        assert (HF2 : Forall (fun c => vpl c <> None) (CS ++ CS)) by (apply Forall_app; split; exact HF).
+        assert (Epl : pls (CS ++ CS) = pls CS ++ pls CS) by (apply flat_map_app).
+        assert (Hpos2 : Forall (fun w : Z * bytes * Value => (0 <= fst (fst w))%Z) (pls (CS ++ CS))) by (rewrite Epl; apply Forall_app; split; exact Hpos).
+        assert (Hall : forall i, exists nm T, Forall (fun e : bytes * Value => fst e = nm) (wsel i (pls (CS ++ CS))) /\
+                                 trace_seq' o (S d + count_dots nm) (map snd (wsel i (pls (CS ++ CS)))) (Ok (TUnknown false)) = Ok T /\
+                                 (forall nm1 T1, get_variant V i = Some (nm1, T1) -> nm1 = nm /\ teq T1 T)).
+        { intros i. rewrite Epl, wsel_app, map_app. specialize (Hsel i). destruct (get_variant V i) as [[nm T1]|].
+          - destruct Hsel as (_ & Hnm & R1). destruct (IH _ _ T1 (Hh i) R1) as (T2 & R2 & Hq). exists nm, T2. split; [apply Forall_app; split; exact Hnm|].
+            split; [exact R2|]. intros nm1 T0 E. injection E as <- <-. split; [reflexivity|exact Hq].
+          - rewrite Hsel. exists [], (TUnknown false). split; [constructor|]. split; [reflexivity|]. intros nm1 T0 E. discriminate. }
+        assert (Hall' : UAll o d (pls (CS ++ CS))) by (intros i; destruct (Hall i) as (nm & T & A & B & _); exists nm, T; split; assumption).
+        destruct (union_complete o d (CS ++ CS) false Hd HF2 Hpos2 Hall') as (u2 & E2).
+        rewrite (strip0 o d (vs ++ vs)) by (rewrite cores_app, Hc; first [exact (variants_containers _ HF2)|discriminate]).
+        rewrite cores_app, Hc, nullish_dup. fold CS. rewrite E2, omk_ok. eexists. split; [reflexivity|]. apply teq_mk.
+        destruct (union_projection o d (CS ++ CS) false u2 ltac:(discriminate) HF2 E2) as (V2 & -> & (_ & Hlen2 & Hsel2)).
+        assert (Hnames : forall i nm T nm' T', get_variant V i = Some (nm, T) -> get_variant V2 i = Some (nm', T') -> nm = nm' /\ teq T T').
+        { intros i nm T nm' T' G1 G2. destruct (Hall i) as (nm0 & T0 & Hn0 & R0 & Hrel). destruct (Hrel nm T G1) as (-> & Hq).
+          specialize (Hsel2 i). rewrite G2 in Hsel2. destruct Hsel2 as (Hne2 & Hn2 & R2).
+          destruct (wsel i (pls (CS ++ CS))) as [|e r] eqn:Ee; [congruence|].
+          pose proof (Forall_inv Hn0) as P1. pose proof (Forall_inv Hn2) as P2. cbn beta in P1, P2. assert (E0 : nm0 = nm') by congruence. clear P1 P2. subst nm'.
+          split; [reflexivity|]. rewrite R0 in R2. injection R2 as <-. exact Hq. }
+        apply teq_union.
+        -- rewrite Hlen, Hlen2, Epl, ulen_app. lia.
+        -- intros i. specialize (Hsel i). specialize (Hsel2 i). rewrite Epl, wsel_app in Hsel2.
+           destruct (get_variant V i) as [[nm T]|], (get_variant V2 i) as [[nm' T']|]; split; intros Hx; try discriminate; try reflexivity.
+           ++ destruct Hsel as (Hne1 & _). rewrite (proj1 (app_eq_nil _ _ Hsel2)) in Hne1. contradiction.
+           ++ destruct Hsel2 as (Hne2 & _). rewrite Hsel in Hne2. contradiction.
+        -- intros i nm T nm' T' G1 G2. apply (proj1 (Hnames i nm T nm' T' G1 G2)).
+        -- intros i nm T nm' T' G1 G2. apply (proj2 (Hnames i nm T nm' T' G1 G2)).
   Qed.
 End Repeat.
